@@ -298,6 +298,9 @@ func c17DecOpts(d *decoder.Decoder, o int) {
 	if o&8 != 0 {
 		d.ValidateString()
 	}
+	if o&16 != 0 {
+		d.DisallowUnknownFields()
+	}
 }
 
 func errClass(err error) string {
@@ -334,7 +337,7 @@ func runC17Dec(c *Ctx) Result {
 	simrt.PoolTape = t
 	defer func() { simrt.PoolTape = nil }()
 	kind := t.Draw(simrt.Knobs, 4)
-	dopts := t.Draw(simrt.Knobs, 16)
+	dopts := t.Draw(simrt.Knobs, 32)
 	if dopts&3 == 3 {
 		dopts &^= 2 // UseNumber and UseInt64 are mutually exclusive
 	}
@@ -372,6 +375,16 @@ func runC17Dec(c *Ctx) Result {
 	}
 	sb.WriteString(tail)
 	data := []byte(sb.String())
+	if g.d(4) == 0 {
+		// invalid UTF-8 inside strings (bytes >= 0x80 occur nowhere else): with ValidateString
+		// the one-shot decoder works on a repaired copy that is longer than the stream's bytes
+		for i := range data {
+			if data[i] >= 0xC0 && g.d(2) == 0 {
+				data[i] = 0xff
+				c.inc("dec_invalid_utf8_bytes")
+			}
+		}
+	}
 	model := c17Frame(data)
 
 	modelVals, modelErrAt := c17ModelVals(model.frames, kind, dopts)
@@ -396,7 +409,8 @@ func runC17Dec(c *Ctx) Result {
 
 	var dec sonic.Decoder
 	if viaConfig {
-		cfg := sonic.Config{UseNumber: dopts&1 != 0, UseInt64: dopts&2 != 0, CopyString: dopts&4 != 0, ValidateString: dopts&8 != 0}.Froze()
+		cfg := sonic.Config{UseNumber: dopts&1 != 0, UseInt64: dopts&2 != 0, CopyString: dopts&4 != 0, ValidateString: dopts&8 != 0,
+			DisallowUnknownFields: dopts&16 != 0}.Froze()
 		dec = cfg.NewDecoder(rd)
 	} else {
 		sd := decoder.NewStreamDecoder(rd)
